@@ -4,7 +4,7 @@ resets of the basin-graph scratch state), C01 (re-routed pits drain out of their
 
 Union-find ghost state (models/basin.h): ROOT[] = class representative in the abstract partition,
 DEPTH[] = well-founded measure along parent pointers.  UF_INV(i) is the representation invariant
-at element i; it is proved for arbitrary ghost elements UG, UG2 and instantiated where the code
+at element i; it is proved for an arbitrary ghost element UG and instantiated where the code
 reads parent[i]."""
 from fv.extract import Unit, R, V, RB
 from fv.runner import Group
@@ -51,7 +51,7 @@ __CPROVER_ensures(__CPROVER_return_value == UF_ROOT(x))
 __CPROVER_ensures(__CPROVER_return_value < UF_N && UF_P(__CPROVER_return_value) == __CPROVER_return_value)
 __CPROVER_ensures(UF_ROOT(__CPROVER_return_value) == __CPROVER_return_value && UF_DEPTH(__CPROVER_return_value) == 0)
 /* ... and leaves the partition unchanged: the same ROOT still satisfies the representation invariant at every element
- * (ghost elements UG, UG2; caller-chosen witnesses w1, w2) */
+ * (ghost element UG; caller-chosen witnesses w1, w2 for the fixed-point clause) */
 __CPROVER_ensures(UF_INV(UG))
 /* path compression never re-parents a fixed point (stated at the witnesses) */
 __CPROVER_ensures(__CPROVER_old(UF_P(w1)) == w1 ==> UF_P(w1) == w1)
@@ -313,7 +313,7 @@ __CPROVER_requires(__CPROVER_is_fresh(m_edges, m_edges_cap * FSL_EDGE_BYTES))
 /* ghost capacities of the scratch vectors: large enough for this call (reallocation is not modelled) */
 __CPROVER_requires(m_edges_n <= m_edges_indices_cap && m_edges_indices_cap <= FSL_BASIN_NMAX && 1 <= m_edges_indices_cap)
 __CPROVER_requires(m_edges_n <= m_tree_cap && m_tree_cap <= FSL_BASIN_NMAX && 1 <= m_tree_cap)
-__CPROVER_requires(__CPROVER_is_fresh(m_edges_indices, m_edges_indices_cap * 8) && __CPROVER_is_fresh(m_tree, m_tree_cap * 8))
+__CPROVER_requires(__CPROVER_is_fresh(m_edges_indices, m_edges_indices_cap * sizeof(size_t)) && __CPROVER_is_fresh(m_tree, m_tree_cap * sizeof(size_t)))
 """
 KR_PRE = "size_t GT; /* ghost slot of m_tree */\n#define L0(e) (m_edges[(e)].link[0])\n#define L1(e) (m_edges[(e)].link[1])\n"
 
@@ -424,6 +424,45 @@ __CPROVER_decreases(m_edges_indices_n - k)
 kruskal = make_kruskal()
 
 
+# ---- tree slice: per-call reset and growth of m_tree alone, with the loop body abstracted by its effect on m_tree ----
+KR_BODY_DECL = r"""
+/* one iteration of Kruskal's loop, by its effect on m_tree only (clauses 1-3 of kruskal_step's contract, enforced in basin.kruskal.step
+ * under the union-find invariant that the prologue establishes): at most one entry is appended, it is the scanned edge, earlier
+ * entries are untouched; the union-find buffers are in the frame */
+void kruskal_body(%s, size_t edge_idx)
+__CPROVER_requires(edge_idx < m_edges_n && m_tree_n < m_tree_cap && GT < m_tree_cap)
+__CPROVER_assigns(m_tree_n, __CPROVER_object_whole(m_tree), __CPROVER_object_whole(uf_parent), __CPROVER_object_whole(uf_rank),
+                  __CPROVER_object_whole(UF_ROOTA), __CPROVER_object_whole(UF_DEPTHA))
+__CPROVER_ensures(m_tree_n == __CPROVER_old(m_tree_n) || m_tree_n == __CPROVER_old(m_tree_n) + 1)
+__CPROVER_ensures(m_tree_n > __CPROVER_old(m_tree_n) ==> m_tree[__CPROVER_old(m_tree_n)] == edge_idx)
+__CPROVER_ensures(GT < __CPROVER_old(m_tree_n) ==> m_tree[GT] == __CPROVER_old(m_tree[GT]))
+;
+""" % KR_PARAMS
+
+kruskal_tree = Unit(
+    name="kruskal_tree", file=BG_H, anchor=r"void basin_graph<FG>::compute_tree_kruskal\(\)",
+    sig="void kruskal_tree(%s)" % KR_PARAMS, pre=KR_PRE + KR_BODY_DECL,
+    rules=[r for r in kruskal.rules if not isinstance(r, RB)][:2] +
+          [RB(r"for \(size_t k = 0; k < m_edges_indices_n; \+\+k\)",
+              "{ size_t e_ = m_edges_indices[FSL_IDX1(k, m_edges_indices_n)]; FSL_PRE(e_ < m_edges_n); kruskal_body(%s, e_); }" % KR_ARGS)] + KR_VOCAB,
+    contract=KR_SHAPE + r"""
+__CPROVER_requires(GT < m_tree_cap && SP1 < m_edges_indices_cap && SP2 < m_edges_indices_cap && UG < uf_cap && UG2 < uf_cap)
+/* NOTHING is required of the scratch members m_tree, m_edges_indices, m_basins_uf (C09: per-call reset) */
+__CPROVER_assigns(m_tree_n, m_edges_indices_n, uf_pn, uf_rn, KPOS, __CPROVER_object_whole(m_tree), __CPROVER_object_whole(m_edges_indices),
+                  __CPROVER_object_whole(uf_parent), __CPROVER_object_whole(uf_rank), __CPROVER_object_whole(UF_ROOTA), __CPROVER_object_whole(UF_DEPTHA))
+/* the tree built by THIS call has at most as many entries as edges were scanned, every entry is an edge index */
+__CPROVER_ensures(m_tree_n <= m_edges_n)
+__CPROVER_ensures(GT < m_tree_n ==> m_tree[GT] < m_edges_n)
+""",
+    loops={0: r"""
+__CPROVER_assigns(k, m_tree_n, __CPROVER_object_whole(m_tree), __CPROVER_object_whole(uf_parent), __CPROVER_object_whole(uf_rank),
+                  __CPROVER_object_whole(UF_ROOTA), __CPROVER_object_whole(UF_DEPTHA))
+__CPROVER_loop_invariant(k <= m_edges_indices_n && m_edges_indices_n == m_edges_n && m_tree_n <= k)
+__CPROVER_loop_invariant(GT < m_tree_n ==> m_tree[GT] < m_edges_n)
+__CPROVER_decreases(m_edges_indices_n - k)
+"""})
+
+
 def _hk(fn, call):
     return r"""
 size_t nondet_size_t(void); _Bool nondet_bool(void); double nondet_double(void);
@@ -449,11 +488,18 @@ G_KR_STEP = Group(
     entry="h_kruskal_step", enforce="kruskal_step", replace=["uf_find", "uf_merge"], backend="cvc5", timeout=900, min_obligations=30,
     clause="one iteration of Kruskal's loop: the scanned edge enters m_tree iff its endpoints are in different union-find classes at "
            "that moment; exactly those two classes are then merged; earlier tree entries are untouched")
+G_KR_TREE = Group(
+    name="basin.kruskal.tree", units=[uf_resize, uf_clear, kruskal_tree], extra_c=[MODEL_H],
+    harness=_hk("kruskal_tree", "kruskal_tree(%s)" % KR_ARGS), entry="h_kruskal_tree", enforce="kruskal_tree",
+    replace=["uf_resize", "uf_clear", "kruskal_body", "fsl_vsz_resize_k", "fsl_vsz_iota_k", "fsl_sort_edges"],
+    loop_contracts=True, backend="cvc5", timeout=1200, min_obligations=30,
+    clause="compute_tree_kruskal, tree slice, on ARBITRARY pre-state of m_tree / m_edges_indices / union-find (per-call reset, C09): the tree "
+           "returned has at most as many entries as edges were scanned and every entry is an edge index (loop body abstracted by its effect on m_tree)")
 G_KR_LOOP = [
     Group(name="basin.kruskal.loop.%s" % l, units=[uf_resize, uf_clear, kruskal_step, make_kruskal(l)], extra_c=[MODEL_H],
           harness=_hk("kruskal", "kruskal(%s)" % KR_ARGS), entry="h_kruskal", enforce="kruskal",
           replace=["uf_resize", "uf_clear", "kruskal_step", "fsl_vsz_resize_k", "fsl_vsz_iota_k", "fsl_sort_edges"],
-          loop_contracts=True, backend="cvc5", timeout=2400, min_obligations=30,
+          loop_contracts=True, backend="cvc5", timeout=3600, min_obligations=30, tier="thorough",
           clause="compute_tree_kruskal on ARBITRARY scratch pre-state (m_tree, m_edges_indices, union-find havocked: per-call reset, C09), lemma `%s`: %s"
                  % (l, {"tree": "|tree| <= number of edges scanned and every entry is an edge index",
                         "classes": "the union-find is re-initialised to singletons and, after the scan, the endpoints of every edge are in one class"}[l]))
@@ -511,9 +557,9 @@ size_t SGT, SE;   /* ghost slot of the tree and the edge index stored there */
 SB_SHAPE = r"""
 __CPROVER_requires(0 < gsize && gsize <= FSL_BASIN_NMAX && 0 < nbasins && nbasins <= gsize)
 __CPROVER_requires(0 < m_edges_n && m_edges_n <= FSL_BASIN_NMAX && m_tree_n <= FSL_BASIN_NMAX && 0 < m_tree_cap && m_tree_n <= m_tree_cap && m_tree_cap <= FSL_BASIN_NMAX)
-__CPROVER_requires(__CPROVER_is_fresh(m_receivers, gsize * 8) && __CPROVER_is_fresh(m_receivers_distance, gsize * 8))
-__CPROVER_requires(__CPROVER_is_fresh(basins, gsize * 8) && __CPROVER_is_fresh(pits, nbasins * 8) && __CPROVER_is_fresh(elevation, gsize * 8))
-__CPROVER_requires(__CPROVER_is_fresh(m_edges, m_edges_n * FSL_EDGE_BYTES) && __CPROVER_is_fresh(m_tree, m_tree_cap * 8))
+__CPROVER_requires(__CPROVER_is_fresh(m_receivers, gsize * sizeof(size_t)) && __CPROVER_is_fresh(m_receivers_distance, gsize * sizeof(double)))
+__CPROVER_requires(__CPROVER_is_fresh(basins, gsize * sizeof(size_t)) && __CPROVER_is_fresh(pits, nbasins * sizeof(size_t)) && __CPROVER_is_fresh(elevation, gsize * sizeof(double)))
+__CPROVER_requires(__CPROVER_is_fresh(m_edges, m_edges_n * FSL_EDGE_BYTES) && __CPROVER_is_fresh(m_tree, m_tree_cap * sizeof(size_t)))
 """
 
 
@@ -689,14 +735,14 @@ CB_VOCAB = [
 CB_LOCALS = "    const size_t nbasins = nbasins_; const size_t init_idx = SIZE_MAX; /* locals of the enclosing function (constants) */\n"
 CB_SHAPE = r"""
 __CPROVER_requires(0 < gsize && gsize <= FSL_BASIN_NMAX && gsize == GSIZE && 0 < nbasins_ && nbasins_ <= gsize)
-__CPROVER_requires(__CPROVER_is_fresh(basins_a, gsize * 8) && __CPROVER_is_fresh(m_receivers, gsize * 8) && __CPROVER_is_fresh(dfs_indices, gsize * 8))
-__CPROVER_requires(__CPROVER_is_fresh(outlets, nbasins_ * 8) && __CPROVER_is_fresh(m_mask, gsize) && __CPROVER_is_fresh(base_level, gsize))
-__CPROVER_requires(__CPROVER_is_fresh(elevation, gsize * 8) && __CPROVER_is_fresh(CB_TSLOT, nbasins_ * 8))
+__CPROVER_requires(__CPROVER_is_fresh(basins_a, gsize * sizeof(size_t)) && __CPROVER_is_fresh(m_receivers, gsize * sizeof(size_t)) && __CPROVER_is_fresh(dfs_indices, gsize * sizeof(size_t)))
+__CPROVER_requires(__CPROVER_is_fresh(outlets, nbasins_ * sizeof(size_t)) && __CPROVER_is_fresh(m_mask, gsize * sizeof(_Bool)) && __CPROVER_is_fresh(base_level, gsize * sizeof(_Bool)))
+__CPROVER_requires(__CPROVER_is_fresh(elevation, gsize * sizeof(double)) && __CPROVER_is_fresh(CB_TSLOT, nbasins_ * sizeof(size_t)))
 __CPROVER_requires(1 <= m_edges_cap && m_edges_cap <= FSL_BASIN_NMAX && m_edges_n <= m_edges_cap && __CPROVER_is_fresh(m_edges, m_edges_cap * FSL_EDGE_BYTES))
 __CPROVER_requires(nbasins_ <= m_edge_positions_cap && m_edge_positions_cap <= FSL_BASIN_NMAX && m_edge_positions_n <= m_edge_positions_cap
-                   && __CPROVER_is_fresh(m_edge_positions, m_edge_positions_cap * 8))
+                   && __CPROVER_is_fresh(m_edge_positions, m_edge_positions_cap * sizeof(size_t)))
 __CPROVER_requires(1 <= m_edge_positions_tmp_cap && m_edge_positions_tmp_cap <= FSL_BASIN_NMAX && m_edge_positions_tmp_n <= m_edge_positions_tmp_cap
-                   && __CPROVER_is_fresh(m_edge_positions_tmp, m_edge_positions_tmp_cap * 8))
+                   && __CPROVER_is_fresh(m_edge_positions_tmp, m_edge_positions_tmp_cap * sizeof(size_t)))
 __CPROVER_requires(GB < nbasins_)
 """
 CB_ANCHOR = r"void basin_graph<FG>::connect_basins\(const data_array_type& elevation\)"
@@ -737,24 +783,22 @@ CB_LEMMAS = {
     "pos": "CB_INV_POS(GB)",
     "edge": "(GEDGE < m_edges_n ==> CB_EDGE_OK(GEDGE)) && CB_ROOT_OK",
 }
-CB_STATE_REQ = r"""
-__CPROVER_requires(m_edge_positions_n == nbasins_)
-__CPROVER_requires(CB_INV_POS(GB) && (GEDGE < m_edges_n ==> CB_EDGE_OK(GEDGE)) && CB_ROOT_OK)
-"""
+def cb_state_req(lemma=None):
+    """lemma chains are self-contained: the chain `pos` (switch, visit.pos, node.pos, loop.pos) only speaks about the edge-position table,
+    the chain `edge` only about stored edges and the root, `lowest` needs neither (it uses the table invariant at the read instance only)"""
+    ls = list(CB_LEMMAS) if lemma is None else ([lemma] if lemma in CB_LEMMAS else [])
+    return ("\n__CPROVER_requires(m_edge_positions_n == nbasins_)\n" + "".join("__CPROVER_requires(%s)\n" % CB_LEMMAS[l] for l in ls))
 
 
 def cb_state_ens(lemma=None):
-    ls = list(CB_LEMMAS) if lemma in (None, "lowest") else [lemma]
-    if lemma == "lowest":
-        ls = []
+    ls = list(CB_LEMMAS) if lemma is None else ([lemma] if lemma in CB_LEMMAS else [])
     return ("__CPROVER_ensures(m_edge_positions_n == nbasins_ && m_edges_n >= __CPROVER_old(m_edges_n) && %s)\n" % CB_CAPS +
             "".join("__CPROVER_ensures(%s)\n" % CB_LEMMAS[l] for l in ls))
 
 
 def cb_state_inv(lemma=None):
-    ls = list(CB_LEMMAS) if lemma is None else [lemma]
-    # the callee contracts require the whole state predicate, so every lemma carries all of it as invariant
-    return "m_edge_positions_n == nbasins_ && %s && " % CB_CAPS + " && ".join(CB_LEMMAS[l] for l in CB_LEMMAS)
+    ls = list(CB_LEMMAS) if lemma is None else ([lemma] if lemma in CB_LEMMAS else [])
+    return " && ".join(["m_edge_positions_n == nbasins_", CB_CAPS] + [CB_LEMMAS[l] for l in ls])
 
 
 CB_ASSIGNS_EDGES = ("__CPROVER_object_whole(m_edges), m_edges_n, __CPROVER_object_whole(m_edge_positions), __CPROVER_object_whole(m_edge_positions_tmp), "
@@ -780,7 +824,7 @@ def make_cb_visit(nb, lemma=None):
         sig="void cb_visit(%s, size_t idfs, double ielev, struct neighbor n)" % CB_PARAMS, defs=CB_DEFS, body_prefix=CB_LOCALS,
         rules=[RB(r"if \(current_basin != ibasin\)", "{ cb_switch(%s, nbasin); }" % CB_ARGS),
                V(r"\bcontinue;", "return; /* `continue` of the outlined loop body */")] + CB_VOCAB,
-        contract=CB_SHAPE + CB_STATE_REQ + r"""
+        contract=CB_SHAPE + cb_state_req(lemma) + r"""
 __CPROVER_requires(idfs < gsize && n.idx < gsize && ibasin < nbasins_ && SAME_D(ielev, elevation[idfs]))
 __CPROVER_assigns(""" + CB_ASSIGNS_EDGES + r""")
 """ + cb_state_ens(lemma) + (CB_LOWEST if lemma in (None, "lowest") else ""))
@@ -795,7 +839,7 @@ def make_cb_node(nb, lemma=None):
                  "neighbors_n = grid_neighbors(idfs, neighbors);\nfor (size_t nb_k = 0; nb_k < neighbors_n; ++nb_k)", 1),
                RB(r"for \(size_t nb_k = 0; nb_k < neighbors_n; \+\+nb_k\)", "{ cb_visit(%s, idfs, ielev, neighbors[nb_k]); }" % CB_ARGS),
                V(r"\bcontinue;", "return; /* `continue` of the outlined loop body */")] + CB_VOCAB,
-        contract=CB_SHAPE + CB_STATE_REQ + r"""
+        contract=CB_SHAPE + cb_state_req(lemma) + r"""
 __CPROVER_requires(idfs < gsize && (is_inner_basin == 0 || is_inner_basin == 1) && (is_inner_basin ==> ibasin < nbasins_))
 __CPROVER_assigns(m_root, ibasin, is_inner_basin, """ + CB_ASSIGNS_EDGES + r""")
 """ + cb_state_ens(lemma) + r"""
@@ -808,11 +852,11 @@ __CPROVER_loop_invariant(nb_k <= neighbors_n && neighbors_n <= FSL_NBMAX && m_ed
 __CPROVER_loop_invariant(%s)
 __CPROVER_loop_invariant(%s)
 __CPROVER_decreases(neighbors_n - nb_k)
-""" % (cb_state_inv(), " && ".join("(%d < neighbors_n ==> neighbors[%d].idx < gsize)" % (k, k) for k in range(nb)))})
+""" % (cb_state_inv(lemma), " && ".join("(%d < neighbors_n ==> neighbors[%d].idx < gsize)" % (k, k) for k in range(nb)))})
 
 
 def make_cb_outer(nb, lemma=None):
-    inv = "(" + cb_state_inv() + r""" && (is_inner_basin == 0 || is_inner_basin == 1) && (is_inner_basin ==> ibasin < nbasins_))"""
+    inv = "(" + cb_state_inv(lemma) + r""" && (is_inner_basin == 0 || is_inner_basin == 1) && (is_inner_basin ==> ibasin < nbasins_))"""
     ens = {"pos": "__CPROVER_ensures(m_edge_positions_n == nbasins_ && CB_INV_POS(GB))\n",
            "edge": "/* every edge present on return was built in this call: root link or pass with pass_elevation = max of its two pass nodes */\n"
                    "__CPROVER_ensures(CB_ROOT_OK && (GEDGE < m_edges_n ==> CB_EDGE_OK(GEDGE)))\n"}
@@ -883,11 +927,11 @@ def cb_groups(nb, tier="quick"):
                         enforce="cb_visit", replace=["cb_switch"], backend="cvc5", timeout=2400, min_obligations=50, tier="thorough",
                         clause="connect_basins, one adjacent node pair, lemma `%s`: %s" % (l, what[l])))
     for l in ("pos", "edge"):
-        gs.append(Group(name="basin.connect.node.%s" % l, units=base + [vis, make_cb_node(nb, l)], extra_c=[MODEL_H], defines=defs,
+        gs.append(Group(name="basin.connect.node.%s" % l, units=base + [make_cb_visit(nb, l), make_cb_node(nb, l)], extra_c=[MODEL_H], defines=defs,
                         harness=_hcb("cb_node", "cb_node(%s, nondet_size_t())" % CB_ARGS, nb), entry="h_cb_node", enforce="cb_node",
                         replace=["cb_visit", "grid_neighbors"], loop_contracts=True, backend="cvc5", timeout=2400, min_obligations=50, tier="thorough",
                         clause="connect_basins, one node of the bottom-up order (neighbour scan closed by a loop contract), lemma `%s`: %s" % (l, what[l])))
-        gs.append(Group(name="basin.connect.loop.%s" % l, units=base + [node, make_cb_outer(nb, l)], extra_c=[MODEL_H], defines=defs,
+        gs.append(Group(name="basin.connect.loop.%s" % l, units=base + [make_cb_node(nb, l), make_cb_outer(nb, l)], extra_c=[MODEL_H], defines=defs,
                         harness=_hcb("connect_basins", "connect_basins(%s)" % CB_ARGS, nb), entry="h_connect_basins", enforce="connect_basins",
                         replace=["cb_node", "fsl_vsz_resize_b", "fsl_vsz_fill_b"], loop_contracts=True, backend="cvc5", timeout=2400,
                         min_obligations=50, tier="thorough",
@@ -959,9 +1003,32 @@ CB_ROOT_GROUPS = [
 cb_make_edge.pre = cb_pre(2)   # ghost declarations, neighbour contract and predicates precede every connect_basins unit
 CB_GROUPS = cb_groups(2)
 
-GROUPS = {"C15": [G_UF_FIND, G_UF_MERGE] + G_UF_LINK + [G_UF_RESIZE, G_UF_CLEAR, G_UF_PUSH, G_KR_CMP, G_KR_STEP] + G_KR_LOOP + CB_ROOT_GROUPS + CB_GROUPS,
+GROUPS = {"C15": [G_UF_FIND, G_UF_MERGE] + G_UF_LINK + [G_UF_RESIZE, G_UF_CLEAR, G_UF_PUSH, G_KR_CMP, G_KR_STEP, G_KR_TREE] + G_KR_LOOP + CB_ROOT_GROUPS + CB_GROUPS,
           "C01": [G_SB_STEP, G_SB_LOOP]}
-GROUPS["C09"] = G_KR_LOOP + [g for g in CB_ROOT_GROUPS if g.name.endswith(".loop")] + [g for g in CB_GROUPS if ".loop." in g.name] + [G_UF_CLEAR, G_UF_RESIZE]
+# keep-alive: goto-instrument aborts on --replace-call-with-contract of a function that is never called.  So that a change which
+# REMOVES a call (e.g. drops a reset) is judged by the contract instead of breaking the tool chain, every harness ends with an
+# unreachable call of each callee named in `replace`.
+_KEEP = {
+    "uf_find": "uf_find(UF_ARGS, 0, 0, 0);", "uf_link": "uf_link(UF_ARGS, 0, 0, 0, 0);", "uf_merge": "uf_merge(UF_ARGS, 0, 0);",
+    "uf_resize": "uf_resize(UF_ARGS, 0);", "uf_clear": "uf_clear(UF_ARGS);",
+    "fsl_vsz_resize": "fsl_vsz_resize(uf_parent, &uf_pn, uf_cap, 0, 0);", "fsl_vsz_iota": "fsl_vsz_iota(uf_parent, 0, 0);",
+    "kruskal_step": "kruskal_step(%s, 0);" % KR_ARGS, "kruskal_body": "kruskal_body(%s, 0);" % KR_ARGS,
+    "fsl_vsz_resize_k": "fsl_vsz_resize_k(m_tree, &m_tree_n, 0, 0, 0);", "fsl_vsz_iota_k": "fsl_vsz_iota_k(m_tree, 0, 0);",
+    "fsl_sort_edges": "fsl_sort_edges(m_tree, 0, m_edges, 0);",
+    "sinks_basic_step": "sinks_basic_step(%s, 0);" % SB_ARGS,
+    "cb_switch": "cb_switch(%s, 0);" % CB_ARGS, "cb_visit": "cb_visit(%s, 0, 0, nn);" % CB_ARGS, "grid_neighbors": "grid_neighbors(0, &nn);",
+    "cb_node": "cb_node(%s, 0);" % CB_ARGS, "cb_node_root": "cb_node_root(%s, 0);" % CB_ARGS, "cb_inner_block": "cb_inner_block(%s, 0);" % CB_ARGS,
+    "fsl_vsz_resize_b": "fsl_vsz_resize_b(m_edge_positions, &m_edge_positions_n, 0, 0, 0);", "fsl_vsz_fill_b": "fsl_vsz_fill_b(m_edge_positions, 0, 0);",
+}
+for _gs in GROUPS.values():
+    for _g in _gs:
+        if _g.replace and "never_" not in _g.harness:
+            _calls = " ".join(_KEEP[f] for f in _g.replace)
+            _i = _g.harness.rindex("}")
+            _g.harness = (_g.harness[:_i] + "    { _Bool never_ = nondet_bool(); __CPROVER_assume(!never_); if (never_) { " + _calls +
+                          " } } /* keep-alive, unreachable */\n" + _g.harness[_i:])
+
+GROUPS["C09"] = [G_KR_TREE] + G_KR_LOOP + [g for g in CB_ROOT_GROUPS if g.name.endswith(".loop")] + [g for g in CB_GROUPS if ".loop." in g.name] + [G_UF_CLEAR, G_UF_RESIZE]
 
 PROPS = {
     "C15": dict(
